@@ -708,3 +708,120 @@ func directiveArgDefaults(def string) (out [][2]string) {
 	}
 	return
 }
+
+// Probe asks whether a member is reachable through the *lookup* structures of a
+// type (the name->member maps that coercion, field resolution and duplicate
+// checks use), which printing and introspection do not touch.
+type Probe struct {
+	Target string
+	Member string
+}
+
+// ProbesFromText extracts (target, member) pairs from the extend blocks of a
+// generated schema fragment.
+func ProbesFromText(text string) (out []Probe) {
+	lines := strings.Split(text, "\n")
+	target := ""
+	for _, ln := range lines {
+		f := strings.Fields(ln)
+		if len(f) >= 3 && f[0] == "extend" {
+			target = strings.TrimRight(f[2], "{")
+			if f[1] == "union" {
+				// extend union U = A | B
+				if i := strings.Index(ln, "="); i >= 0 {
+					for _, m := range strings.Split(ln[i+1:], "|") {
+						if m = strings.TrimSpace(m); m != "" {
+							out = append(out, Probe{target, m})
+						}
+					}
+				}
+				target = ""
+			}
+			continue
+		}
+		if strings.HasPrefix(strings.TrimSpace(ln), "}") {
+			target = ""
+			continue
+		}
+		if target != "" && len(f) > 0 {
+			name := f[0]
+			if i := strings.IndexAny(name, "(:@"); i >= 0 {
+				name = name[:i]
+			}
+			if name != "" {
+				out = append(out, Probe{target, name})
+			}
+		}
+	}
+	return
+}
+
+// ProbeLookups evaluates the probes plus, for every type of the root, whether
+// each listed member can also be looked up by name.
+func ProbeLookups(root *ggql.Root, probes []Probe) (out string) {
+	defer func() {
+		if r := recover(); r != nil {
+			out += fmt.Sprintf("PANIC in lookups: %v", r)
+		}
+	}()
+	var b strings.Builder
+	look := func(t ggql.Type, name string) string {
+		switch tt := t.(type) {
+		case *ggql.Object:
+			return strconv.FormatBool(tt.GetField(name) != nil)
+		case *ggql.Interface:
+			return strconv.FormatBool(tt.GetField(name) != nil)
+		case *ggql.Input:
+			_, err := tt.CoerceIn(map[string]interface{}{name: nil})
+			return strconv.FormatBool(err == nil || !strings.Contains(err.Error(), "is not a field"))
+		case *ggql.Enum:
+			_, err := tt.CoerceIn(ggql.Symbol(name))
+			return strconv.FormatBool(err == nil)
+		case *ggql.Union:
+			for _, m := range tt.Members {
+				if m.Name() == name {
+					return "true"
+				}
+			}
+			return "false"
+		case nil:
+			return "no such type"
+		}
+		return "n/a"
+	}
+	for _, p := range probes {
+		b.WriteString(p.Target + "." + p.Member + "=" + look(root.GetType(p.Target), p.Member) + ";")
+	}
+	for _, t := range root.Types() {
+		if t.Core() {
+			continue
+		}
+		switch tt := t.(type) {
+		case *ggql.Object:
+			for _, fd := range tt.Fields() {
+				if tt.GetField(fd.Name()) != fd {
+					b.WriteString("listed but not found by name: " + t.Name() + "." + fd.Name() + ";")
+				}
+			}
+		case *ggql.Interface:
+			for _, fd := range tt.Fields() {
+				if tt.GetField(fd.Name()) != fd {
+					b.WriteString("listed but not found by name: " + t.Name() + "." + fd.Name() + ";")
+				}
+			}
+		case *ggql.Input:
+			for _, f := range tt.Fields() {
+				if look(tt, f.Name()) != "true" {
+					b.WriteString("listed but not found by name: " + t.Name() + "." + f.Name() + ";")
+				}
+			}
+		case *ggql.Enum:
+			for _, v := range tt.Values() {
+				if look(tt, string(v.Value)) != "true" {
+					b.WriteString("listed but not found by name: " + t.Name() + "." + string(v.Value) + ";")
+				}
+			}
+		}
+	}
+	return b.String()
+}
